@@ -1599,7 +1599,7 @@ class CodedKern(Kern):
         :returns: New name made of original + tag + suffix
         :rtype: str
         '''
-        if original.endswith(suffix):
+        if original.lower().endswith(suffix):
             return original[:-len(suffix)] + tag + suffix
         return original + tag + suffix
 
